@@ -17,6 +17,34 @@ TEXT = {
         "note": COMMON_NOTE,
         "technique": "Lean 4 proof (invariant + refinement) of the Model; differential correspondence Model vs code",
     },
+    "C12": {
+        "level": "Theorems: CheckAndMutateRow is, for every valid predicate tree, row state and pair of mutation lists, exactly 'matched = predicate yields a cell; apply the selected list "
+                 "with MutateRow semantics'; invalid predicate => InvalidArgument, invalid mutation in the selected branch => error, other branch irrelevant, frame for other rows, and "
+                 "matched agrees with what ReadRows with the same filter emits. Tied to the code by random predicates x mutation-list pairs over histories on three engines.",
+        "note": COMMON_NOTE,
+        "technique": "Lean 4 proof (decision logic stated outright + frame); differential correspondence",
+    },
+    "C13": {
+        "level": "Theorems: big-endian int64 decode(encode v) = v on the whole int64 range, wrap-around sum is an int64 congruent mod 2^64, and a complete rule semantics (accepted iff "
+                 "family known and an existing newest cell is 8 bytes for increments; written value and timestamp; older versions kept; other columns untouched; failure changes nothing). "
+                 "Tied to the code by rule lists with extreme amounts, future cells, 0/7/8/9-byte values and injected clocks on three engines.",
+        "note": COMMON_NOTE,
+        "technique": "Lean 4 proof (arithmetic round trip with omega; rule semantics by cases); differential correspondence",
+    },
+    "C14": {
+        "level": "Theorems over the registry/table Model: create/exists, delete => NotFound, frame for other tables; ModifyColumnFamilies all-or-nothing; a family drop purges exactly that family's "
+                 "cells (scrub lemma); DropRowRange(prefix) — modelled as the code's scan-from-prefix-until-first-non-prefix — deletes exactly the rows with that prefix (prefix-block lemma on the "
+                 "bytewise order, for all sorted stores). Tied to the code by admin/data programs with full dumps on three engines.",
+        "note": COMMON_NOTE,
+        "technique": "Lean 4 proof (order lemma + induction over rows); differential correspondence; structural fact on the RPC method set",
+    },
+    "C16": {
+        "level": "Theorems: for every GC rule tree (mutual induction) applyGC retains exactly the first keep(rule) cells of the descending column; max-age retains exactly ts >= now-age; union = shortest "
+                 "member prefix; unsupported rules and rule-less families untouched; emptied rows removed; other tables untouched; quiescence test; the pass collects the row as stored at visit time. "
+                 "Tied to the code by forced passes with an injected clock at the boundaries, and by passes interleaved with client writes at every lock reversal (yield hook).",
+        "note": COMMON_NOTE + " The timer that decides when a pass runs is not modelled.",
+        "technique": "Lean 4 proof (mutual structural induction over rule trees); differential correspondence incl. hook-driven interleavings",
+    },
     "C02": {
         "level": "Theorems: the chunking law of resumable uploads (for every payload and every request sequence carrying parts of it the buffer stays a prefix "
                  "and every completion hands over exactly the payload — induction over the request list), upload-then-read round trip, rejected MD5 mismatch, "
